@@ -350,6 +350,23 @@ JudgeHook(e) ==
             ELSE LET top == TopSeed(e.alg, k.seed) IN
                  CmpVal("root_res", "ok", e.res)
                  \o (IF e.res = "ok" THEN CmpBytes("root_seed", top.seed, e.seed) \o CmpBytes("root_I", top.I, e.I) ELSE <<>>)
+      [] e.hook = "derive" ->
+            (* seed derivation below a tree (C08), for leaf numbers no affordable tree reaches: child seed *)
+            (* and identifier, randomizer, first and last chain start value of the leaf's one-time key    *)
+            LET alg == e.alg
+                sd  == B(e.seed)
+                I   == B(e.I)
+                q   == DecU32(B(e.q))
+            IN  IF q = Huge THEN <<>>
+                ELSE CmpVal("derive_res", "ok", e.res)
+                     \o (IF e.res # "ok" THEN <<>>
+                         ELSE LET ch == ChildSeedAndI(alg, sd, I, q)
+                                  p  == P(N(alg), W(e.type))
+                              IN  CmpBytes("derive_child_seed", ch.seed, e.child_seed)
+                                  \o CmpBytes("derive_child_I", ch.I, e.child_I)
+                                  \o CmpBytes("derive_randomizer", Randomizer(alg, sd, I, q), e.randomizer)
+                                  \o CmpBytes("derive_x_first", X(alg, I, q, 0, sd), e.x_first)
+                                  \o CmpBytes("derive_x_last", X(alg, I, q, p - 1, sd), e.x_last))
       [] e.hook \in {"zeroize", "drop"} ->
             (* SecretLifecycle: a populated value holds secret bytes; after zeroize / drop none survives *)
             CmpVal("secret_probe", "ok", e.res)
